@@ -247,6 +247,30 @@ pub fn handle(ctx: &mut RtCtx, cmd: &str, req: &Value) -> Result<Value, String> 
             let frame: Vec<u32> = (0..5).map(|i| rt.memory.load(s + i, 8).unwrap_or(0) & 0xFF).collect();
             Ok(json!({"pre": pre, "post": post, "frame": frame, "err": r.err().map(|e| e.to_string())}))
         }
+        // C16: snapshot bundle of a runtime -> file, and file -> an existing (freshly configured) runtime
+        "rt.save" => {
+            let rt = ctx.rts.get(&name).ok_or("no rt")?;
+            let path = req["path"].as_str().ok_or("path")?;
+            let r = rt.save_snapshot(std::path::Path::new(path));
+            Ok(json!({"err": r.err().map(|e| e.to_string())}))
+        }
+        "rt.load_snapshot" => {
+            let rt = ctx.rts.get_mut(&name).ok_or("no rt")?;
+            let path = req["path"].as_str().ok_or("path")?;
+            let r = rt.load_snapshot(std::path::Path::new(path));
+            Ok(json!({"err": r.err().map(|e| e.to_string())}))
+        }
+        "rt.drop" => {
+            ctx.rts.remove(&name);
+            Ok(json!({}))
+        }
+        // step once and return the compact observation plus the full projection (C16)
+        "rt.step_dump" => {
+            let rt = ctx.rts.get_mut(&name).ok_or("no rt")?;
+            let r = rt.step(1);
+            let d = dump(rt, &ranges_of(req));
+            Ok(json!({"err": r.err().map(|e| e.to_string()), "dump": d, "obs": obs(rt)}))
+        }
         _ => Err(format!("unknown rt cmd {cmd}")),
     }
 }
